@@ -29,8 +29,8 @@ inductive Compatible : Bool → Ty → Ty → Prop where
   | opt {a g e} : Compatible true g e → Compatible a (.opt g) (.opt e)
   /-- objects: every expected field is present and compatible, no other field is present -/
   | obj {a gf ef} : FieldsCompatible a gf ef → hasExcessField gf ef = false → Compatible a (.obj gf) (.obj ef)
-  /-- functions (where admitted): compatible result, same number of parameters, every expected
-  parameter present under its name with a compatible type -/
+  /-- functions (where admitted): compatible result, same number of parameters, the parameters
+  correspond by position: same name, compatible type -/
   | fn {gp gr ep er} : Compatible true gr er → ep.length = gp.length → ParamsCompatible gp ep →
       Compatible true (.fn gp gr) (.fn ep er)
   | fnvar {gp grest gr ep erest er} : Compatible true gr er → ep.length = gp.length → TysCompatible gp ep →
@@ -40,9 +40,9 @@ inductive FieldsCompatible : Bool → List (String × Ty) → List (String × Ty
   | cons {a gf n e g rest} : lookupTy n gf = some g → Compatible a g e → FieldsCompatible a gf rest →
       FieldsCompatible a gf ((n, e) :: rest)
 inductive ParamsCompatible : List (String × Ty) → List (String × Ty) → Prop where
-  | nil {gp} : ParamsCompatible gp []
-  | cons {gp n e g rest} : lookupTy n gp = some g → Compatible true g e → ParamsCompatible gp rest →
-      ParamsCompatible gp ((n, e) :: rest)
+  | nil : ParamsCompatible [] []
+  | cons {n g e gs rest} : Compatible true g e → ParamsCompatible gs rest →
+      ParamsCompatible ((n, g) :: gs) ((n, e) :: rest)
 inductive TysCompatible : List Ty → List Ty → Prop where
   | nilL {es} : TysCompatible [] es
   | nilR {gs} : TysCompatible gs []
